@@ -591,6 +591,13 @@ def runCase (e : SExp) : Array String :=
         let ty := decTaxon y
         let ta := if tx.length ≤ ty.length then tx else ty
         let td := if tx.length ≤ ty.length then ty else tx
+        -- duplicated copies / retained genes of the comparison, from the histories alone (theorem C06_reported_count_is_the_history;
+        -- any descendant, species nodes included)
+        let o := if ta.isSuffixOf td && ta != td then
+            o.put "hrep" (taxS ta ++ ">" ++ taxS td ++ "=" ++
+              toString ((hs.map fun (f : Taxon × SL) => reportedAt true ta td f.1 none f.2).sum) ++ "," ++
+              toString ((hs.map fun (f : Taxon × SL) => reportedAt false ta td f.1 none f.2).sum))
+          else o
         if T.isInternalAt td && ta.isSuffixOf td && ta != td then
           let o := o.put "hgain" (taxS ta ++ ">" ++ taxS td ++ "=" ++
             toString ((hs.map fun (f : Taxon × SL) => if f.1.isSuffixOf ta then 0 else lineagesAt td f.1 f.2).sum))
